@@ -341,9 +341,24 @@ def evaluate_history(spec, wd, entropy, stats=None):
 
 # ------------------------------------------------------------- generation --
 def sample_orders(files, rng, limit):
+    if limit is None and len(files) > 4:
+        limit = 24          # exhaustive up to 4 names (24 orders), sampled above
+    if limit is None:
+        return [list(p) for p in itertools.permutations(files)]
+    n_perms = 1
+    for i in range(2, len(files) + 1):
+        n_perms *= i
+    if n_perms <= limit:
+        return [list(p) for p in itertools.permutations(files)]
+    if n_perms > 5000:
+        chosen = [list(files), list(reversed(files))]
+        while len(chosen) < limit:
+            p = list(files)
+            rng.shuffle(p)
+            if p not in chosen:
+                chosen.append(p)
+        return chosen
     perms = list(itertools.permutations(files))
-    if limit is None or len(perms) <= limit:
-        return [list(p) for p in perms]
     chosen = [list(files), list(reversed(files))]
     rest = [list(p) for p in perms if list(p) not in chosen]
     rng.shuffle(rest)
@@ -614,6 +629,8 @@ def run(tier, seed):
     results = []
     for res in parallel_imap(run_program, ((seed, i, tier) for i in range(cfg["programs"]))):
         results.append(res)
+        if len(results) % 250 == 0:
+            print("  ... %d programs, %.0fs" % (len(results), time.time() - t0), flush=True)
         if budget and time.time() - t0 > budget:
             break
     raw = []
